@@ -3289,3 +3289,11 @@ def _(m, callee, args):
 @model(r'^Path::(read_link|symlink_metadata)$|^Path::is_symlink$')
 def _(m, callee, args):
     raise Unsupported('symlink inspection')
+
+
+@model(r' as FnOnce<.*>>::call_once$| as FnMut<.*>>::call_mut$| as Fn<.*>>::call$')
+def _(m, callee, args):
+    """a closure / fn item invoked through the Fn* traits (`f()` where f: impl FnOnce() -> T)"""
+    a = args[1] if len(args) > 1 else ()
+    a = deref_all(m, a) if isinstance(a, (Ref, ValRef)) else a
+    return m.call_closure(args[0], list(a) if isinstance(a, (tuple, list)) else [a])
